@@ -397,7 +397,7 @@ impl Prop for C18 {
     fn meta() -> Meta {
         Meta {
             level: "exploration",
-            rule: "Each run: randomize(s) with s from the boundary dictionary (0, 2^33-1, 2^33, 2^33+1, 2^40, 2^43, 2^44-1, 2^44, 2^44+1, 2^53, 2^63, 2^64-2, 2^64-1, and the two seeds that reach the largest states) or uniform in [0,2^33), [2^33,2^44), [2^44,2^64); then 1-200 draws `PRINT RND(a)` with a positive / zero / negative in random order, as immediate lines and inside stored programs run with break+CONT, interleaved with re-seeding and with host activity that must not touch the generator (RUN of other programs, LIST, STOP/CONT, failing lines, a broken endless loop); every line is also given to the Web adapter (real abasic-web code, natively compiled) seeded identically. Oracle: LCG model in u128 (x <- (1664525 x + 1013904223) mod 2^33), printed text == Display(x / 2^33), value in [0,1), RND(0) repeats without advancing (right after seeding only the range is required), negative argument -> UNIMPLEMENTED without advancing, generator state (probe) == model state after every op, both front ends print the same. distinct_nontrivial = distinct op-sequence hashes among runs with >= 3 draws; distinct_states = distinct generator states visited.",
+            rule: "Each run: randomize(s) with s from the boundary dictionary (0, 2^33-1, 2^33, 2^33+1, 2^40, 2^43, 2^44-1, 2^44, 2^44+1, 2^53, 2^63, 2^64-2, 2^64-1, and the two seeds that reach the largest states) or uniform in [0,2^33), [2^33,2^44), [2^44,2^64); then 1-200 draws `PRINT RND(a)` with a positive / zero / negative in random order, as immediate lines and inside stored programs run with break+CONT, with expressions that call RND twice (nested or side by side) and a stored DEF of a user function named RND, interleaved with re-seeding and with host activity that must not touch the generator (RUN of other programs, LIST, STOP/CONT, failing lines, a broken endless loop); every line is also given to the Web adapter (real abasic-web code, natively compiled) seeded identically. Oracle: LCG model in u128 (x <- (1664525 x + 1013904223) mod 2^33), printed text == Display(x / 2^33), value in [0,1), RND(0) repeats without advancing (right after seeding only the range is required), negative argument -> UNIMPLEMENTED without advancing, generator state (probe) == model state after every op, both front ends print the same. distinct_nontrivial = distinct op-sequence hashes among runs with >= 3 draws; distinct_states = distinct generator states visited.",
             real: &["abasic-core Rng + RND builtin", "abasic-web JsInterpreter (native rlib)"],
             stub: &["the clocks that produce seeds (CLI SystemTime, Web Date.now)", "u128 LCG model"],
             assumptions: &[
